@@ -760,3 +760,68 @@ Proof.
   pose proof (unescape_reencode q Hq data R) as Hu.
   destruct Hq; subst q; unfold spec_step; cbn -[unescape_until escape_bytes]; rewrite Hu; reflexivity.
 Qed.
+
+(* ---------- with the final line break the .p8 writer supplies ---------- *)
+Lemma crlf_txt_tail : forall (F : list tchunk) tail, Forall (fun tc => cr_ok (fst tc)) F -> crlf_only tail = true ->
+  crlf_only (txt F ++ tail) = true.
+Proof.
+  induction F as [|[c t] F IH]; intros tail H Ht; [exact Ht|]. inversion H as [|? ? [Hc Hn] HF]; subst.
+  unfold txt. cbn [map fst concat]. rewrite <- app_assoc. apply crlf_only_app; [exact Hc | exact Hn | apply IH; assumption].
+Qed.
+
+Lemma relex_nl cfg src ss chunks : spec_toks src = Some ss -> minify_gen cfg (map sk ss) = Ok chunks ->
+  exists tcs, tchunks_from cfg init_wstate ss = Ok tcs /\ chunks = map fst (space_tagged [] tcs) /\
+    spec_toks (concat chunks ++ [10]) = Some (tks (space_tagged [] tcs) ++ [nl_tok]).
+Proof.
+  intros Hsrc Hm. destruct (spec_toks_chain _ _ Hsrc) as (Hcr & Hch).
+  destruct (minify_gen_tagged _ _ _ Hm) as (tcs & Ht & ->). exists tcs. split; [exact Ht|]. split; [reflexivity|].
+  pose proof (chain_shaped _ _ Hch) as Hsh. pose proof (chain_cr _ _ Hch Hcr) as Hcrs.
+  pose proof (relex_from_nl cfg ss init_wstate [] PStart tcs Hsh (inv_init_w cfg) Ht (or_introl eq_refl)) as HC.
+  apply chain_spec_toks; [|exact HC]. apply crlf_txt_tail; [|reflexivity]. apply space_tagged_cr.
+  eapply tchunks_cr; [exact Hsh | exact Hcrs | apply inv_init_w | exact Ht].
+Qed.
+
+Lemma sig_toks_snoc_nl l : sig_toks (l ++ [nl_tok]) = sig_toks l.
+Proof. rewrite sig_toks_app. cbn. apply app_nil_r. Qed.
+
+Lemma line_groups_snoc_nl : forall l n, line_groups_from n (l ++ [nl_tok]) = line_groups_from n l.
+Proof.
+  induction l as [|t r IH]; intros n; cbn [app line_groups_from s_kind nl_tok mk].
+  - destruct (0 <? n); reflexivity.
+  - destruct (s_kind t); try destruct (0 <? n); rewrite ?IH; reflexivity.
+Qed.
+
+Lemma spec_count_snoc_nl l : spec_count (l ++ [nl_tok]) = spec_count l.
+Proof. unfold spec_count. rewrite fold_left_app. cbn. lia. Qed.
+
+Lemma related_snoc_nl ss ss' : related ss ss' = true -> related ss (ss' ++ [nl_tok]) = true.
+Proof.
+  unfold related, views_ok, renaming_ok, groups_ok, count_ok, line_groups.
+  rewrite sig_toks_snoc_nl, line_groups_snoc_nl, spec_count_snoc_nl. auto.
+Qed.
+
+Lemma after_header_app : forall hc out rest x, after_header hc out = Some rest -> after_header hc (out ++ x) = Some (rest ++ x).
+Proof.
+  induction hc as [|c hc IH]; intros out rest x H; cbn [after_header] in *; [injection H as <-; reflexivity|].
+  destruct out as [|o [|n out']]; try discriminate. cbn [app].
+  destruct (is_kind SComment o && zlist_eqb (s_raw o) (s_raw c) && is_kind SNewline n); [|discriminate]. apply IH, H.
+Qed.
+
+Theorem luamin_nl cfg src ss chunks : spec_toks src = Some ss -> minify_gen cfg (map sk ss) = Ok chunks ->
+  holds_C01 src (concat chunks ++ [10]) = true /\ holds_C19 src (concat chunks ++ [10]) = true.
+Proof.
+  intros Hsrc Hm. destruct (relex cfg src ss chunks Hsrc Hm) as (tcs & Ht & Hch & Hout).
+  destruct (relex_nl cfg src ss chunks Hsrc Hm) as (tcs' & Ht' & _ & Hout'). rewrite Ht in Ht'. injection Ht' as <-.
+  destruct (luamin_related cfg src ss chunks Hsrc Hm) as (ss' & Ho & Hrel & _). rewrite Hout in Ho. injection Ho as <-.
+  destruct (luamin_header cfg src ss chunks Hsrc Hm) as (ss' & Ho & H1 & H2 & H3 & _). rewrite Hout in Ho. injection Ho as <-.
+  split.
+  - unfold holds_C01. rewrite Hsrc, Hout'. apply related_snoc_nl, Hrel.
+  - unfold holds_C19. rewrite Hsrc, Hout'. unfold header_ok in *.
+    destruct (after_header (header_of ss) (tks (space_tagged [] tcs))) as [rest|] eqn:Ea; [|discriminate].
+    rewrite (after_header_app _ _ _ [nl_tok] Ea). rewrite no_comments_app, H1. cbn [no_comments forallb andb].
+    assert (T : titles_ok ss (tks (space_tagged [] tcs) ++ [nl_tok]) = true).
+    { unfold titles_ok. pose proof (after_header_titles _ _ _ (after_header_app _ _ _ [nl_tok] Ea)) as T.
+      destruct (header_of ss) as [|c1 [|c2 hc]]; [reflexivity | rewrite T; apply opt_bytes_eqb_refl|].
+      destruct T as [T1 T2]. rewrite T1, T2, !opt_bytes_eqb_refl. reflexivity. }
+    rewrite T. unfold sig_count_ok in *. rewrite sig_toks_snoc_nl, H3. reflexivity.
+Qed.
